@@ -12,14 +12,27 @@ structure Group where
   idx : Nat
   v : Val
   bytes : Bytes
+  /-- `true`: the group decodes whatever follows it (a single field); `false`: only when what follows does
+  not begin with the group's own tag (the consecutive elements of a `Vec` field: one more element with that
+  tag would belong to the group). -/
+  strict : Bool := true
+
+/-- `x` does not begin with tag `t`. -/
+def NoStart (t : Nat) (x : Bytes) : Prop := ∀ r, tagDecDefault x ≠ .ok (t, r)
+
+theorem noStart_nil (t : Nat) : NoStart t [] := by
+  intro r h; simp [tagDecDefault] at h
+
+/-- what may follow the group. -/
+def Group.Follows (g : Group) (tail : Bytes) : Prop := g.strict = true ∨ NoStart g.t tail
 
 abbrev Arm := Nat → Bytes → Option (Nat × Res (Val × Bytes))
 
 /-- the group decodes exactly, whatever follows it: the tag is recognised, the arm of that tag yields the
 value and hands back precisely the bytes behind the group. -/
 def GroupOK (arm : Arm) (g : Group) : Prop :=
-  g.bytes ≠ [] ∧ ∀ tail, (∃ r, tagDecDefault (g.bytes ++ tail) = .ok (g.t, r)) ∧
-    arm g.t (g.bytes ++ tail) = some (g.idx, .ok (g.v, tail))
+  g.bytes ≠ [] ∧ (∀ tail, ∃ r, tagDecDefault (g.bytes ++ tail) = .ok (g.t, r)) ∧
+    ∀ tail, g.Follows tail → arm g.t (g.bytes ++ tail) = some (g.idx, .ok (g.v, tail))
 
 def flat (gs : List Group) : Bytes := gs.flatMap (·.bytes)
 
@@ -48,11 +61,13 @@ theorem contains_false_of_not_mem (l : List Nat) (t : Nat) (h : t ∉ l) : l.con
 /-- **One round**: a well-formed group at the head of the input whose tag was not seen yet is consumed,
 its value recorded under its field index, its tag marked as seen. -/
 theorem tagLoop_step (arm : Arm) (g : Group) (hg : GroupOK arm g) (fuel currLen : Nat) (tail : Bytes)
-    (acc : List (Nat × Val)) (seen : List Nat) (hns : g.t ∉ seen) (hcl : currLen ≠ (g.bytes ++ tail).length) :
+    (acc : List (Nat × Val)) (seen : List Nat) (hns : g.t ∉ seen) (hcl : currLen ≠ (g.bytes ++ tail).length)
+    (hfo : g.Follows tail) :
     tagLoop arm (fuel + 1) currLen (g.bytes ++ tail) acc seen =
       tagLoop arm fuel (g.bytes ++ tail).length tail ((g.idx, g.v) :: acc) (g.t :: seen) := by
-  obtain ⟨hne, hok⟩ := hg
-  obtain ⟨⟨r, htd⟩, harm⟩ := hok tail
+  obtain ⟨hne, htg, hok⟩ := hg
+  obtain ⟨r, htd⟩ := htg tail
+  have harm := hok tail hfo
   simp only [tagLoop]
   have h1 : ¬ ((g.bytes ++ tail).isEmpty = true ∨ currLen = (g.bytes ++ tail).length) := by
     intro h
@@ -64,24 +79,42 @@ theorem tagLoop_step (arm : Arm) (g : Group) (hg : GroupOK arm g) (fuel currLen 
   simp only [h1, if_false, htd, harm, contains_false_of_not_mem seen g.t hns]
   simp
 
-/-- **Many rounds**: groups with pairwise distinct, not yet seen tags are consumed one after the other. -/
+/-- a group may be followed by further groups with other tags. -/
+theorem follows_flat (arm : Arm) (g : Group) (gs : List Group) (tail : Bytes)
+    (hok : ∀ g' ∈ gs, GroupOK arm g') (hnt : g.t ∉ gs.map (·.t))
+    (hlast : gs = [] → g.Follows tail) : g.Follows (flat gs ++ tail) := by
+  cases gs with
+  | nil => simpa [flat] using hlast rfl
+  | cons g' gs' =>
+    right
+    intro r h
+    obtain ⟨r', hr'⟩ := (hok g' (by simp)).2.1 (flat gs' ++ tail)
+    rw [flat_cons, List.append_assoc, hr'] at h
+    simp only [Except.ok.injEq, Prod.mk.injEq] at h
+    exact hnt (by simp [h.1])
+
+/-- **Many rounds**: groups with pairwise distinct, not yet seen tags are consumed one after the other
+(the last one must be allowed to be followed by `tail`). -/
 theorem tagLoop_groups (arm : Arm) : ∀ (gs : List Group) (fuel currLen : Nat) (tail : Bytes)
     (acc : List (Nat × Val)) (seen : List Nat),
     (∀ g ∈ gs, GroupOK arm g) → (gs.map (·.t)).Nodup → (∀ g ∈ gs, g.t ∉ seen) →
-    (gs ≠ [] → currLen ≠ (flat gs ++ tail).length) →
+    (gs ≠ [] → currLen ≠ (flat gs ++ tail).length) → (∀ g, gs.getLast? = some g → g.Follows tail) →
     tagLoop arm (gs.length + fuel) currLen (flat gs ++ tail) acc seen =
       tagLoop arm fuel (lastLen gs tail currLen) tail (results gs acc) (tagsOf gs seen) := by
   intro gs
   induction gs with
-  | nil => intro fuel currLen tail acc seen _ _ _ _; simp [flat, results, tagsOf, lastLen]
+  | nil => intro fuel currLen tail acc seen _ _ _ _ _; simp [flat, results, tagsOf, lastLen]
   | cons g gs ih =>
-    intro fuel currLen tail acc seen hok hnd hns hcl
+    intro fuel currLen tail acc seen hok hnd hns hcl hlast
     have hg := hok g (by simp)
     have hcl' := hcl (by simp)
     rw [flat_cons, List.append_assoc] at hcl' ⊢
     have hlen : (g :: gs).length + fuel = (gs.length + fuel) + 1 := by simp; omega
-    rw [hlen, tagLoop_step arm g hg _ currLen (flat gs ++ tail) acc seen (hns g (by simp)) hcl']
     simp only [List.map_cons, List.nodup_cons] at hnd
+    have hfo : g.Follows (flat gs ++ tail) :=
+      follows_flat arm g gs tail (fun g' hg' => hok g' (by simp [hg'])) hnd.1
+        (fun h => hlast g (by simp [h]))
+    rw [hlen, tagLoop_step arm g hg _ currLen (flat gs ++ tail) acc seen (hns g (by simp)) hcl' hfo]
     have hns' : ∀ g' ∈ gs, g'.t ∉ g.t :: seen := by
       intro g' hg' hm
       simp only [List.mem_cons] at hm
@@ -94,7 +127,13 @@ theorem tagLoop_groups (arm : Arm) : ∀ (gs : List Group) (fuel currLen : Nat) 
       cases hb : g.bytes with
       | nil => exact absurd hb this
       | cons x xs => simp; omega
-    rw [ih fuel _ tail _ _ (fun g' hg' => hok g' (by simp [hg'])) hnd.2 hns' hcl2]
+    have hlast' : ∀ g', gs.getLast? = some g' → g'.Follows tail := by
+      intro g' hg'
+      apply hlast g'
+      cases gs with
+      | nil => simp at hg'
+      | cons a as => simpa [List.getLast?_cons_cons] using hg'
+    rw [ih fuel _ tail _ _ (fun g' hg' => hok g' (by simp [hg'])) hnd.2 hns' hcl2 hlast']
     congr 1
     · cases gs with
       | nil => simp [lastLen, flat]
